@@ -34,6 +34,7 @@ def caseLine (c : Case) (ts : List String) : Case :=
   match ts with
   | ["n", n] => { c with n := natD n }
   | ["nets", k] => { c with nets := natD k }
+  | ["rerun", _] => { c with rerun := true }
   | ["cap", k] => { c with cap := natD k }
   | ["link", a, b, l, x] => { c with links := c.links ++ [⟨natD a, natD b, natD l, natD x⟩] }
   | "fault" :: cs :: s :: r :: net :: rest =>
@@ -106,7 +107,7 @@ def runModel (body : List String) : List String :=
     | "pop" :: rest => parsePop rest
     | _ => none
   if !c.resolves then ["E unknown-target"] else
-  modelLines c (St.init c) pops
+  modelLines c (St.init c) pops ++ (if c.rerun then ["Y same"] else [])
 
 /-! ### judge input -/
 
@@ -151,7 +152,9 @@ def parseFinal (line : String) : Option Settings :=
 
 def runJudge (body : List String) : List String :=
   let c := parseCase body
-  let obsLines := body.filter fun l => (toks l).head? == some "obs"
+  let isY := fun (l : String) => (toks l).take 2 == ["obs", "Y"]
+  let yLines := body.filter isY
+  let obsLines := body.filter fun l => (toks l).head? == some "obs" && !isY l
   let isZ := fun (l : String) => (toks l).take 2 == ["obs", "Z"]
   let obs := (obsLines.filter (!isZ ·)).map parseObs
   let final := (obsLines.find? isZ).bind parseFinal
@@ -159,6 +162,11 @@ def runJudge (body : List String) : List String :=
   else if obsLines == ["obs E unknown-target"] then
     if c.resolves then ["viol schedule/rejected-resolvable-plan"] else ["ok"]
   else if !c.resolves then ["viol schedule/accepted-unknown-target"]
+  else if c.rerun && yLines != ["obs Y same"] then
+    -- "reset() followed by run() repeats the run": for the stateless workloads of the rerun family the
+    -- second run has to be the first one again (fault windows included)
+    ["viol rerun/second-run-differs-from-first"]
+  else if !c.rerun && !yLines.isEmpty then ["viol transcript/malformed"]
   else if obs.any (·.isNone) then ["viol transcript/malformed"]
   else if (obsLines.find? isZ).isNone then ["viol transcript/no-final-line"]
   else
